@@ -23,4 +23,6 @@ NR = ["", "an extra info on one side", "name unset on B", "name unset on A", "a 
 for k in range(1, 6):
   HARNESSES.append(dict(COMMON, name="build_nonrep%d" % k, entry="h_build", encoded=BUILD, defines={"EDITS": 15, "NONREP": k}, tiers={"quick": {}, "thorough": {}},
        bounds="pair (A, B) with all four representable edits (symbolic values) plus: %s" % NR[k], cost=30))
-OUTSIDE = ["diff XML export/load (refname)", "distances/memattr/cpukind comparison branches of diff_build (empty in the state)", "lists longer than 3 entries"]
+HARNESSES.append(dict(COMMON, name="build_distances", entry="h_build_dist", encoded=BUILD + ["distances comparison of hwloc_topology_diff_build"], tiers={"quick": {}, "thorough": {}},
+       unwindset=dict(COMMON["unwindset"], **{"memcmp.0": 40}), bounds="two identical topologies, one 2x2 distances structure on each side with arbitrary values and kinds", cost=20))
+OUTSIDE = ["diff XML export/load (refname)", "memattr/cpukind comparison branches of diff_build (empty in the state)", "lists longer than 3 entries"]
